@@ -543,7 +543,11 @@ class HyperscanTokenizer(Tokenizer):
                 start = byte_to_str_offset[start]
                 end = byte_to_str_offset[end]
                 m = extractor.compiled_regex.match(text[start:end])
-                yield extractor.get_token(m, offset=start)
+                # hyperscan classifies bytes, Python characters: a hit that the
+                # Python pattern does not confirm (e.g. next to a no-break
+                # space) is not a match
+                if m:
+                    yield extractor.get_token(m, offset=start)
 
     @property
     def hyperscan_db(self):
